@@ -1,5 +1,35 @@
 package main
 
-import "regexp"
+import (
+	"go/ast"
+	"go/types"
+	"regexp"
+)
 
 func regexpMust(s string) *regexp.Regexp { return regexp.MustCompile(s) }
+
+// normLocals renders e with every local variable (parameter, receiver, local; not fields, not package-level
+// variables) replaced by `$<its type>`: the rendering does not change when a local is renamed. Keys of justification
+// tables and of known findings use it.
+func normLocals(info *types.Info, e ast.Expr) string {
+	if e == nil || info == nil {
+		return ""
+	}
+	sub := map[types.Object]string{}
+	ast.Inspect(e, func(x ast.Node) bool {
+		id, ok := x.(*ast.Ident)
+		if !ok {
+			return true
+		}
+		v, ok := objOf(info, id).(*types.Var)
+		if !ok || v.IsField() || (v.Pkg() != nil && v.Parent() == v.Pkg().Scope()) {
+			return true
+		}
+		sub[v] = "$" + types.TypeString(v.Type(), func(p *types.Package) string { return p.Name() })
+		return true
+	})
+	if len(sub) == 0 {
+		return es(e)
+	}
+	return render(info, e, sub)
+}
